@@ -7,7 +7,10 @@ construction from atomic, prefixed, alias and compound strings, array creation, 
   (2) the same probes on a *fresh* registry built from the model's contents in the same (warm) process,
   (3) the same probes in a *cold* process (fork of a pristine fork server) on a fresh registry,
   (4) snapshots of every retained Unit / array created before an edit ("keep the value they had"),
-  (5) the outcome class of every edit call against the same call on a fresh registry with the pre-edit contents.
+  (5) the outcome class of every edit call against the same call on a fresh registry with the pre-edit contents,
+  (7) the same ufunc-level operation applied, only after the last edit and in a chosen order, to arrays of one spelling built
+      before / between / after the edits ("generations"): each result must be its operand's values x the scale the spelling had
+      when that operand was built (catalogue: vf/gen/c12_pairs.py).
 """
 import itertools
 from fractions import Fraction as Fr
@@ -15,6 +18,7 @@ import numpy as np
 from vf import core
 from vf.ref import dims, defs, names, uexpr, regmodel
 from vf.monitors.c12_coldserver import ColdServer
+from vf.gen import c12_pairs as gp
 
 RULE = ("one evaluation = one observed outcome (scale+dimension+offset of a Unit built from a string, SI values+unit of an array "
         "creation/conversion/arithmetic result, snapshot of a retained object, or outcome class of an edit call) compared with the "
@@ -30,7 +34,19 @@ RULE = ("one evaluation = one observed outcome (scale+dimension+offset of a Unit
         "edit-via/probe-via role, built through this handle before the edit or not); independent copies (deepcopy, pickle, JSON, "
         "Unit.copy(deep=True), deepcopy/pickle of a quantity) get their own model and must not follow the source's edits nor the "
         "source theirs. Enumerated part: 15 ways of obtaining the second object x every edit op of the catalogue x base state x "
-        "(first editor, which handles were warmed, handle taken before/after the symbol existed), two edits in opposite directions")
+        "(first editor, which handles were warmed, handle taken before/after the symbol existed), two edits in opposite directions. "
+        "Generations part: one evaluation = the result (SI values = data x result-unit scale, dimension vector; truth values for "
+        "comparisons) of ONE operation of the catalogue (40 one-operand operations: the memoised unit rules sqrt/cbrt/square/power/"
+        "reciprocal/multiply/divide/add/subtract, scalar and same-other-unit forms, own-unit forms, reductions, comparisons against a "
+        "threshold lying between the generations, unit-object arithmetic; 8 two-operand operations combining two generations in both "
+        "orientations) on ONE array of a history base - array - [edit step - array]* in which every array is built with the same "
+        "spelling and NO operation runs before the last edit (state 'warm-before-edit': the whole catalogue ran once on the first "
+        "array before the first edit; thorough also 'isolated': one operation per registry), for each evaluation order of the "
+        "generations (oldest first / newest first; thorough: up to 6 permutations); 13 (thorough 18) edit scripts incl. edits through a "
+        "second handle, arrays built through a second handle, edit of a companion symbol (control), 2-3 successive edits; distinct cell "
+        "= (script, operation, pre-/post-edit operand, evaluated first/later, spelling class, state, decisive or control). The same "
+        "judgement is applied at the end of every random / handle history (and every 'deep' exhaustive one) to up to two retained "
+        "arrays and a new array of the same spelling (5 one-operand + 2 two-operand operations, rotating; order alternating)")
 ASSUMPTIONS = (
     "trusted base: ref/regmodel.py (dict model), ref/uexpr.py (expression evaluator), ref/defs.py values of the exactly defined "
     "symbols used as companions (m, s, g, kg, cm, km, K, rad, A, cd; pc within its 1e-7 class) and ref/names.py spellings",
@@ -68,6 +84,21 @@ ASSUMPTIONS = (
     "table; a stale id through a handle other than the editing one is keyed once per direction, not per edit kind (one mechanism)",
     "the carrier quantity that came with a handle (e.g. the result of q.in_mks()) is in units the alphabet never edits (m, cm, kg); "
     "carrier.to(<probed string>) must give value x carrier scale / current scale of the string, or raise when the dimensions differ",
+    "generations monitor: 'keep the value they had' + 'depends only on arguments and current contents' read together: an operation on a "
+    "pre-edit array must give the result implied by the scale its spelling had when it was BUILT, on a post-edit array the one implied "
+    "by the current table, whichever is evaluated first; reductions and comparisons are judged too (their expected values are computed "
+    "from the operand's SI values); combining a pre-edit with a post-edit array of one spelling must use each operand's own scale "
+    "(add/subtract/compare/maximum must refuse when the edit changed the dimension)",
+    "generations monitor: an evaluation counts as decisive only when the prediction for the operand's own scale differs from the "
+    "prediction for another generation's scale (edits that leave the spelling's scale unchanged are controls); the INCONCLUSIVE gate "
+    "is on decisive evaluations per (pre-/post-edit operand) x (evaluated first/later), on decisive comparisons and mixed operations, "
+    "on every edit script, and on the in-history form",
+    "generations monitor inside histories: not driven for spellings of electromagnetic dimension or with a zero-point offset (any "
+    "conversion of such a pre-edit array is the known to-base-raises finding / C08's subject, judged by the retained monitor), and the "
+    "conversions x.in_base / x.to(...) of the catalogue are left to the retained monitor there",
+    "generations monitor: a comparison between a dimensionless array and an array of another dimension (possible only after an edit "
+    "that changed the spelling's dimension) is answered rather than refused by unyt with or without any history; whether it should "
+    "be refused is not part of this statement - counted as not judged",
 )
 MIN_EVALS = 5000
 TIMEOUT = 1500
@@ -871,7 +902,7 @@ class Session:
                     si = np.asarray(x.to(b).d, dtype="f8").tolist()
                 except Exception:
                     continue
-                r = {"kind": kind, "string": s, "obj": x, "version": v, "base": b, "si": si,
+                r = {"kind": kind, "string": s, "obj": x, "version": v, "base": b, "si": si, "m": self.model.outcome(u),
                      "snap": (np.asarray(x.d).tobytes(), float(x.units.base_value), dimstr(x.units.dimensions), str(x.units.expr))}
             self.retained.append(r)
         if len(self.retained) > 10:        # keep the oldest four and the newest six
@@ -942,8 +973,270 @@ class Session:
                     rec.ok(("retained", kind, r["kind"], "to-current-refused"))
 
 
+# ----------------------------------------------------------------------------------------------------------- generations
+# (7) the same operation on arrays of several GENERATIONS (built with one spelling before / between / after edits), applied only
+# after the last edit, in a chosen order: each result must be the one implied by the scale its operand was built with
+GEN_ADDITIVE = ("x+T", "T-x", "x-x[::-1]", "np.diff", "a+b", "a-b", "x+x")
+GEN_NO_HISTORY = ("x.in_base", "x.to(T.units)")        # conversions of a retained object: judged by check_retained
+GEN_WHO_POS = tuple((w, p) for w in ("pre-edit", "post-edit") for p in ("first", "later"))
+
+
+def gen_measure(unyt, res):
+    """result as a physical quantity: ['q', SI values, dims] / ['bool', list, None]"""
+    if isinstance(res, unyt.Unit):
+        return ["q", [float(res.base_value)], dimstr(res.dimensions)]
+    uu = getattr(res, "units", None)
+    arr = np.atleast_1d(np.asarray(getattr(res, "d", res)))
+    if arr.dtype == bool:
+        return ["bool", [bool(b) for b in arr.ravel()], None]
+    vals = arr.astype("f8").ravel()
+    if uu is None:
+        return ["q", vals.tolist(), dimlist(dims.ZERO)]
+    return ["q", (vals * float(uu.base_value)).tolist(), dimstr(uu.dimensions)]
+
+
+def gen_match(e, o, tol, magn=0.0):
+    """None when observation o agrees with expectation e, else the failure kind"""
+    if e == "raise":
+        return None if o[0] == "exc" else "not-refused"
+    if o[0] == "exc":
+        return "raised"
+    if e[0] == "bool":
+        return None if (o[0] == "bool" and o[1] == e[1]) else "value"
+    if o[0] != "q":
+        return "value"
+    if o[2] != dimlist(e[2]):
+        return "dimension"
+    want, got = np.asarray(e[1], dtype="f8").ravel(), np.asarray(o[1], dtype="f8")
+    if want.shape != got.shape or not np.all(np.abs(got - want) <= tol * (np.abs(want) + magn)):
+        return "value"
+    return None
+
+
+def gen_as_obs(e):
+    return ["exc", "-"] if e == "raise" else (["bool", e[1], None] if e[0] == "bool" else ["q", np.asarray(e[1], dtype="f8").ravel().tolist(), dimlist(e[2])])
+
+
+def judge_generations(unyt, rec, reg, gens, order, opnames, crossnames, label, uclass, state, ctx, in_base=True):
+    """gens: [{'x': array, 'v': raw values, 'scale','dim','tol' of its spelling when it was built, 'who'}] oldest first;
+    order: the order in which the generations are evaluated for every operation; reg: registry the helper quantities
+    (threshold T in SI base units, 3 s) are created against, after the last edit"""
+    uq = unyt.unyt_quantity
+    g0, gl = gens[0], gens[-1]
+    a0, al = abs(g0["v"][0] * g0["scale"]), abs(gl["v"][0] * gl["scale"])
+    t_si = float(np.sqrt(a0 * al)) if (g0["dim"] == gl["dim"] and a0 != al) else 1.7 * al
+    S = uq(3.0, "s", registry=reg)
+    Ts = {}
+    for g in gens:
+        if g["dim"] not in Ts:
+            Ts[g["dim"]] = uq(t_si, base_string(g["dim"]), registry=reg)
+    rec.count("generation_cases")
+
+    def settle(name, g, pos, e, alts, o, tol, magn, cross=False):
+        rec.count("evals_generations")
+        who = g["who"]
+        position = "first" if pos == 0 else "later"
+        decisive = any(gen_match(e, gen_as_obs(a), tol, magn) is not None for a in alts)
+        bad = gen_match(e, o, tol, magn)
+        if cross:
+            rec.count("evals_generations_cross")
+        if decisive:
+            rec.count("evals_generations_decisive")
+            rec.count(f"evals_generations_decisive:{who}:{position}")
+            if e != "raise" and e[0] == "bool":
+                rec.count("evals_generations_bool_decisive")
+            rec.reach(f"generations|{name}|{who}|{position}")
+        if bad is None:
+            rec.ok(("generations", label, name, who, position, uclass, state, "decisive" if decisive else "control"))
+            return
+        for a, rel in alts_rel(alts, g):
+            if gen_match(a, o, tol, magn) is None and gen_match(e, gen_as_obs(a), tol, magn) is not None:
+                bad = "takes-scale-of-" + rel + "-generation"
+                break
+        rec.violation(f"C12:{label}:generations:{name}:{who}-operand:{bad}:evaluated-{position}",
+                      f"{name} on an array built in {ctx['u']!r} {who} ({ctx['history']}), applied after the last edit as "
+                      f"{'the first' if pos == 0 else 'a later'} of the generations (order {list(order)}): got {o}; the operand's values x the "
+                      f"scale its spelling had when it was built ({g['scale']!r}) give {gen_as_obs(e)}",
+                      dict(ctx, op=name, order=list(order), generation=g["n"], state=state, observed=o))
+
+    def alts_rel(alts, g):
+        return [(a, "an-earlier" if j < g["n"] else "a-later") for a, j in zip(alts, [h["n"] for h in gens if h is not g])]
+
+    for name in opnames:
+        if name in ("x.in_base",) and not in_base:
+            continue
+        fn, expect = gp.UNARY[name]
+        for pos, gi in enumerate(order):
+            g = gens[gi]
+            T = Ts[g["dim"]]
+            try:
+                o = gen_measure(unyt, fn(np, unyt, g["x"], T, S))
+            except Exception as ex:
+                o = exc(ex)
+            q = g["v"] * g["scale"]
+            e = expect(q, g["dim"], t_si, g["v"])
+            alts = [expect(h["v"] * h["scale"], h["dim"], t_si, h["v"]) for h in gens if h is not g]
+            magn = max(float(np.abs(q).max()), t_si) if name in GEN_ADDITIVE else 0.0
+            settle(name, g, pos, e, alts, o, 4 * g["tol"] + 1e-12, magn)
+    # the generations combined with each other (both orientations), after the one-operand operations
+    pairs = [(i, i + 1) for i in range(len(gens) - 1)] + ([(0, len(gens) - 1)] if len(gens) > 2 else [])
+    for name in crossnames:
+        fn, expect = gp.CROSS[name]
+        for (i, j) in pairs:
+            for (ai, bi) in ((i, j), (j, i)):
+                a, b = gens[ai], gens[bi]
+                try:
+                    o = gen_measure(unyt, fn(np, unyt, a["x"], b["x"]))
+                except Exception as ex:
+                    o = exc(ex)
+
+                def ex_(sa, sb):
+                    if expect is None:
+                        return ("q", np.array([sa * sb]), dims.mul(a["dim"], b["dim"]))
+                    return expect(a["v"] * sa, a["dim"], b["v"] * sb, b["dim"])
+                e = ex_(a["scale"], b["scale"])
+                if e is None:
+                    rec.count("generations_not_judged:" + name)
+                    continue
+                # what a confusion of the two generations would give: both at a's scale / both at b's scale
+                alts = [ex_(a["scale"], a["scale"]), ex_(b["scale"], b["scale"])] if a["dim"] == b["dim"] else []
+                magn = float(max(np.abs(a["v"] * a["scale"]).max(), np.abs(b["v"] * b["scale"]).max())) if name in GEN_ADDITIVE else 0.0
+                g = dict(a, who="mixed")
+                rec.count("evals_generations")
+                rec.count("evals_generations_cross")
+                tol = 4 * (a["tol"] + b["tol"]) + 1e-12
+                decisive = any(gen_match(e, gen_as_obs(x), tol, magn) is not None for x in alts)
+                if decisive:
+                    rec.count("evals_generations_cross_decisive")
+                    rec.reach(f"generations|{name}|mixed")
+                bad = gen_match(e, o, tol, magn)
+                if bad is None:
+                    rec.ok(("generations", label, name, "mixed", "old-left" if ai < bi else "new-left", uclass, state))
+                    continue
+                if any(gen_match(x, o, tol, magn) is None for x in alts):
+                    bad = "both-operands-at-one-scale"
+                rec.violation(f"C12:{label}:generations:{name}:mixed-operands:{bad}",
+                              f"{name} with a = array built in {ctx['u']!r} in generation {a['n']} (scale {a['scale']!r}) and b = the one of "
+                              f"generation {b['n']} (scale {b['scale']!r}) ({ctx['history']}): got {o}; the operands' own values give {gen_as_obs(e)}",
+                              dict(ctx, op=name, a=a["n"], b=b["n"], state=state, observed=o))
+
+
+def gen_orders(n, tier):
+    fw = tuple(range(n))
+    out = [fw, fw[::-1]]
+    if tier == "thorough" and n > 2:
+        out += [p for p in itertools.permutations(fw) if p not in out][:4]
+    return out
+
+
+def run_generations(unyt, rec, tier, labels, hows):
+    """enumerated part of (7): base state - array - [edit step - array]* - operations on all arrays"""
+    scripts = gp.SCRIPTS_THOROUGH if tier == "thorough" else gp.SCRIPTS
+    spellings = gp.SPELLINGS_THOROUGH if tier == "thorough" else gp.SPELLINGS_QUICK
+    unary, cross = tuple(gp.UNARY), tuple(gp.CROSS)
+    vals = np.array([4.0, 9.0])
+    for label in labels:
+        script = scripts[label]
+        uses_copy = any(h == "c" for step in script for h, _ in step) or label in gp.BUILD_VIA
+        for how in (hows if uses_copy else (None,)):
+            for (u, uclass) in spellings:
+                states = [("cold", unary), ("warm-before-edit", unary)]
+                if tier == "thorough" and len(script) == 1:
+                    states += [("isolated", (n,)) for n in gp.RULE_OPS]
+                for state, opnames in states:
+                    for order in gen_orders(len(script) + 1, tier):
+                        reg, model = unyt.UnitRegistry(), regmodel.RegModel(defaults=True)
+                        add_mark(unyt, reg, model, next_mark())
+                        ok = True
+                        for b in HANDLE_BASE["with"]:
+                            ok = ok and apply_real(unyt, reg, b) == "ok" and model.apply(b) == "ok"
+                        H = {"o": reg, "c": make_handle(unyt, reg, how)[0] if how else reg}
+                        via = gp.BUILD_VIA.get(label, "o" * (len(script) + 1))
+                        gens = []
+
+                        def build(n):
+                            m = model.outcome(u)
+                            if m[0] != "ok":
+                                return False
+                            x = unyt.unyt_array(vals.copy(), u, registry=H[via[n]])
+                            gens.append({"x": x, "v": vals, "scale": m[1], "dim": m[2], "tol": m[3], "n": n, "who": None})
+                            return True
+                        try:
+                            ok = ok and build(0)
+                            if ok and state == "warm-before-edit":
+                                S0, T0 = unyt.unyt_quantity(3.0, "s", registry=reg), unyt.unyt_quantity(7.0, base_string(gens[0]["dim"]), registry=reg)
+                                for n in unary:
+                                    gp.UNARY[n][0](np, unyt, gens[0]["x"], T0, S0)
+                            for k, step in enumerate(script):
+                                for h, op in step:
+                                    ok = ok and apply_real(unyt, H[h], op) == "ok" and model.apply(op) == "ok"
+                                ok = ok and build(k + 1)
+                        except Exception as ex:
+                            rec.note(f"generations-setup-raised:{label}:{type(ex).__name__}")
+                            ok = False
+                        if not ok:
+                            rec.note("generations-setup-failed:" + label)
+                            continue
+                        for g in gens:
+                            g["who"] = "post-edit" if g["n"] == len(gens) - 1 else "pre-edit"
+                        rec.count("generation_scripts:" + label)
+                        if how:
+                            rec.count("generation_handles:" + how)
+                        ctx = {"u": u, "history": f"foo = 2 m, zed = 0.5 kg; then {script}" + (f"; second handle by {how}, arrays built via {via}" if how else ""),
+                               "scales": [g["scale"] for g in gens]}
+                        judge_generations(unyt, rec, H[via[-1]], gens, order, opnames, cross if state != "isolated" else (), label, uclass, state, ctx)
+    rec.sample({"generations": list(labels), "spellings": [s for s, _ in spellings], "unary": list(unary), "cross": list(cross)})
+
+
+_GEN_ROT = itertools.count()
+
+
+def session_generations(sess):
+    """(7) inside the histories: a retained pre-edit array and a new array of the same spelling, same operation on both"""
+    unyt, rec, model = sess.unyt, sess.rec, sess.model
+    if sess.dead:
+        return
+    cands = []
+    for r in sess.retained:
+        m = r.get("m")
+        if r["kind"] != "array" or not m or m[0] != "ok":
+            continue
+        o = model.outcome(r["string"])
+        if o[0] != "ok" or o[2][7] != 0 or o[2][5] != 0 or m[2][5] != 0:
+            continue
+        try:
+            if sess.has_offset(model.evaluate(r["string"]).symbols):
+                continue
+        except Exception:
+            continue
+        cands.append((0 if not feq(o[1], m[1], 1e-9) or o[2] != m[2] else 1, r, o))
+    cands.sort(key=lambda c: c[0])
+    unary = [n for n in gp.UNARY if n not in GEN_NO_HISTORY]
+    cross = list(gp.CROSS)
+    for _, r, o in cands[:2]:
+        k = next(_GEN_ROT)
+        vals = np.array([1.0, 2.5])
+        try:
+            B = unyt.unyt_array(vals.copy(), r["string"], registry=sess.reg)
+        except Exception as ex:
+            rec.note("generations-history-build-raised:" + type(ex).__name__)
+            continue
+        m = r["m"]
+        gens = [{"x": r["obj"], "v": vals, "scale": m[1], "dim": m[2], "tol": m[3], "n": 0, "who": "pre-edit"},
+                {"x": B, "v": vals, "scale": o[1], "dim": o[2], "tol": o[3], "n": 1, "who": "post-edit"}]
+        ops = [unary[(5 * k + i) % len(unary)] for i in range(5)]
+        cr = [cross[(2 * k + i) % len(cross)] for i in range(2)]
+        symbols = model.evaluate(r["string"]).symbols
+        kind = sess.edit_of(symbols)[0]
+        rec.count("evals_generations_history_cases")
+        ctx = {"u": r["string"], "history": f"history {model.log[-8:]}; array retained since version {r['version']}; handle {sess.how}", "prov": sess.prov,
+               "scales": [m[1], o[1]]}
+        judge_generations(unyt, rec, sess.reg, gens, (0, 1) if k % 2 == 0 else (1, 0), ops, cr, kind + ":history", "retained", "history", ctx,
+                          in_base=False)
+
+
 # ----------------------------------------------------------------------------------------------------------- registries
-PROVENANCES = ("defaults", "empty+si", "lut-copy", "deepcopy-default")
+PROVENANCES =("defaults", "empty+si", "lut-copy", "deepcopy-default")
 
 
 _MARKS = itertools.count()
@@ -1147,6 +1440,11 @@ def batches(tier, seed):
         for k in range(0, nh, per):
             b.append((f"handles/{how}/{k}", {"mode": "handles", "how": how, "lo": k, "hi": min(nh, k + per), "tier": tier,
                                              "cold_stride": 4 if tier == "quick" else 8}))
+    labels = list(gp.SCRIPTS_THOROUGH if tier == "thorough" else gp.SCRIPTS)
+    per = 1 if tier == "thorough" else 3
+    for k in range(0, len(labels), per):
+        b.append((f"generations/{k}", {"mode": "generations", "labels": labels[k:k + per], "tier": tier,
+                                       "hows": list(SHARED_HOWS[:7]) if tier == "thorough" else ["copy.copy(reg)", "q.in_mks"]}))
     b.append(("shadow", {"mode": "shadow", "tier": tier}))
     b.append(("reuse", {"mode": "reuse", "tier": tier}))
     b.append(("coldcheck", {"mode": "coldcheck", "tier": tier}))
@@ -1255,7 +1553,7 @@ def gen_random_history(r, tier, maxlen):
 
 
 # ----------------------------------------------------------------------------------------------------------- worker
-def run_steps(unyt, rec, steps, syms, tier, srv, cold_final, idcheck_always=False):
+def run_steps(unyt, rec, steps, syms, tier, srv, cold_final, idcheck_always=False, generations=True):
     sessions = []
     mark = next_mark()
     multi = sum(1 for st in steps if st[0] in ("new", "clone")) > 1       # tables, not handles
@@ -1288,6 +1586,9 @@ def run_steps(unyt, rec, steps, syms, tier, srv, cold_final, idcheck_always=Fals
     for s in sessions:
         s.multi = multi
         s.probe(subset=None, fresh=True, cold=cold_final)
+    if generations:
+        for s in sessions:
+            session_generations(s)
     rec.count("histories")
     rec.count("registries", len(sessions))
     if len(sessions) > 1:
@@ -1319,7 +1620,7 @@ def worker(batch, rec):
                             if t < L - 1 and mask[t]:
                                 steps.append(("probe", 0, None))
                         deep = count % p["cold_stride"] == 0
-                        run_steps(unyt, rec, steps, EXH_SYMS, tier, srv, cold_final=deep, idcheck_always=deep)
+                        run_steps(unyt, rec, steps, EXH_SYMS, tier, srv, cold_final=deep, idcheck_always=deep, generations=deep)
                         count += 1
             rec.sample({"exhaustive": {"L": L, "first": ops[p["first"]], "second": [ops[j] for j in p["second"]], "histories": count,
                                        "probes": [x[0] for x in unit_probes(EXH_SYMS, tier)]}})
@@ -1338,6 +1639,8 @@ def worker(batch, rec):
                 run_steps(unyt, rec, steps, EXH_SYMS, tier, srv, cold_final=deep, idcheck_always=True)
                 rec.count("handle_histories")
             rec.sample({"handles": p["how"], "history": steps})
+        elif mode == "generations":
+            run_generations(unyt, rec, tier, p["labels"], p["hows"])
         elif mode == "shadow":
             run_shadow(unyt, rec, tier)
         elif mode == "reuse":
@@ -1547,7 +1850,11 @@ def extra(tier, seed, results):
                 "handle_histories", "shared_table_histories", "shared_handles_distinct_object", "edits_shared_table:via-original",
                 "edits_shared_table:via-copy", "evals_shared_cross", "evals_shared_cross_warm", "evals_shared_cross_distinct_objects",
                 "evals_shared_cross_warm:edit-via-original:probe-via-copy", "evals_shared_cross_warm:edit-via-copy:probe-via-original",
-                "evals_shared_system_id", "evals_shared_retained", "evals_independent_decisive")
+                "evals_shared_system_id", "evals_shared_retained", "evals_independent_decisive",
+                # same operation on arrays of several generations
+                "evals_generations", "evals_generations_cross_decisive", "evals_generations_bool_decisive", "evals_generations_history_cases")
+    deciding += tuple(f"evals_generations_decisive:{w}:{p_}" for w, p_ in GEN_WHO_POS)
+    deciding += tuple("generation_scripts:" + l for l in (gp.SCRIPTS_THOROUGH if tier == "thorough" else gp.SCRIPTS))
     zero = [k for k in deciding if not c.get(k)]
     zero += ["edits_shared_table:" + k for k in EDIT_KINDS if not c.get("edits_shared_table:" + k)]
     zero += ["shared_handles:" + h for h in SHARED_HOWS if not c.get("shared_handles:" + h)]
@@ -1569,6 +1876,8 @@ def extra(tier, seed, results):
         | {f"shared|{h}|edit-via-{a}:probe-via-{b}|{w}" for h in SHARED_HOWS[:7] for a, b in (("original", "copy"), ("copy", "original"))
            for w in ("unit", "mapping", "array", "fresh", "cold", "retained")} \
         | {f"independent|{h}|{p}" for h in INDEP_HOWS for p in PCLASSES[:5]} \
-        | {f"shadow|{h}|{p}" for h in ("add", "define_unit") for p in ("atomic", "compound")}
+        | {f"shadow|{h}|{p}" for h in ("add", "define_unit") for p in ("atomic", "compound")} \
+        | {f"generations|{o}|{w}|{p_}" for o in gp.UNARY if o not in ("x/x.units", "x/x") for w, p_ in GEN_WHO_POS} \
+        | {f"generations|{o}|mixed" for o in gp.CROSS}
     return {"sub_monitor_counters": {k: c.get(k, 0) for k in sorted(c)}, "catalogue_size": len(cat),
             "unreached": sorted(cat - reached)}
